@@ -1,0 +1,28 @@
+//go:build verif
+
+// Package verifhook provides named instrumentation points for external verification
+// harnesses.  With the "verif" build tag a handler installed via Set is invoked at each Point.
+package verifhook
+
+import "sync/atomic"
+
+type handlerFunc func(site string, args ...string)
+
+var handler atomic.Pointer[handlerFunc]
+
+// Set installs (or with nil removes) the handler called at every Point.
+func Set(h func(site string, args ...string)) {
+	if h == nil {
+		handler.Store(nil)
+		return
+	}
+	hf := handlerFunc(h)
+	handler.Store(&hf)
+}
+
+// Point calls the installed handler, if any, with the site name and arguments.
+func Point(site string, args ...string) {
+	if h := handler.Load(); h != nil {
+		(*h)(site, args...)
+	}
+}
